@@ -115,9 +115,16 @@ extern WindowCtl g_win;
 void install_signal_layer();
 void set_current_run(uint64_t idx);   // reported when the worker dies outside a window
 
+// Uninitialised stack is a source of nondeterminism too: before every window the region the
+// operation's frames will occupy is filled with a plan-chosen byte, so a read of stale stack is
+// repeatable and (because the byte differs between the two passes of memsim) observable.
+__attribute__((noinline)) void scrub_stack(uint8_t byte);
+extern volatile uint8_t g_scrub_byte;
+
 template <class F>
 __attribute__((noinline)) Outcome window(F &&f, bool fail_alloc) {
     Outcome o;
+    scrub_stack(g_scrub_byte);
     g_win.allocs = 0; g_win.fail_alloc = fail_alloc ? 1 : 0;
     if (sigsetjmp(g_win.env, 1) == 0) {
         g_win.open = 1;
